@@ -1,6 +1,7 @@
 (* C27: line-protocol driver around the extracted Gallina model (no logic of its own: parsing and printing only).
    L q d2 pol kind lb ub n v1..vn      -> check_value on a scalar (n=1, form S) or tensor
-   D k {id cat [-|kind lb ub] [-|kind lb ub]}*k   -> sets the current declaration list (bounds, then physical bounds)
+   D k {id cat [-|kind lb ub] [-|kind lb ub] [-|comp] [-|comp]}*k   -> sets the current declaration list (bounds, then physical
+                                                   bounds, then the single component concerned by each, '-' = all)
    E d2 pol entry m {id pd tensor n v1..vn}*m    -> exec on checkBounds_calls / integrate_calls of the declarations
    values: nan | inf | -inf | integer key.  Output per L/E line: events "t,k,var,comp" separated by ';' *)
 open C27_model
@@ -30,6 +31,7 @@ let bounds_of k = match k with
   | "B" -> let lb = xz_of (next ()) in let ub = xz_of (next ()) in Both (lb, ub)
   | _ -> failwith "kind"
 let opt_bounds () = match next () with "-" -> None | k -> Some (bounds_of k)
+let opt_comp () = match next () with "-" -> None | k -> Some (nat_of_int (int_of_string k))
 let rec values n = if n = 0 then [] else let v = xz_of (next ()) in v :: values (n - 1)
 let cat_of = function "MaterialProperty" -> MaterialProperty | "Persistent" -> Persistent
                     | "ExternalState" -> ExternalState | "LocalVar" -> LocalVar | _ -> failwith "cat"
@@ -59,7 +61,8 @@ let () =
            let rec go k = if k = 0 then [] else
                let id = nat_of_int (int_of_string (next ())) in let c = cat_of (next ()) in
                let b = opt_bounds () in let ph = opt_bounds () in
-               { vd_id = id; vd_cat = c; vd_bounds = b; vd_phys = ph } :: go (k - 1) in
+               let bc = opt_comp () in let pc = opt_comp () in
+               { vd_id = id; vd_cat = c; vd_bounds = b; vd_phys = ph; vd_bcomp = bc; vd_pcomp = pc } :: go (k - 1) in
            ds := go k
          | "E" ->
            let d2 = bool_of (next ()) in let p = pol_of (next ()) in let entry = next () in
